@@ -35,10 +35,12 @@ func Normalize(p *Program) {
 				switch x := nd.(type) {
 				case *ast.FuncDecl:
 					if x.Body != nil && x.Type.Results == nil {
+						n.tailIf(x.Body)
 						n.funcBody(x.Body)
 					}
 				case *ast.FuncLit:
 					if x.Type.Results == nil {
+						n.tailIf(x.Body)
 						n.funcBody(x.Body)
 					}
 				}
@@ -291,6 +293,39 @@ func (n *normalizer) continueGuards(list []ast.Stmt) []ast.Stmt {
 		return append(append([]ast.Stmt{}, list[:i]...), guard)
 	}
 	return list
+}
+
+// tailIf: in a function without results whose last statement is `if c { R }` (no else), the body
+// is equivalent to `if !c { return }; R` - the early-return form the analyses are written for.
+func (n *normalizer) tailIf(body *ast.BlockStmt) {
+	for iter := 0; iter < 8; iter++ {
+		if body == nil || len(body.List) == 0 {
+			return
+		}
+		last, ok := body.List[len(body.List)-1].(*ast.IfStmt)
+		if !ok || last.Else != nil || len(last.Body.List) == 0 {
+			return
+		}
+		// only for receive checks and the like: the condition must be a plain identifier or its negation
+		c := last.Cond
+		for {
+			p, isP := c.(*ast.ParenExpr)
+			if !isP {
+				break
+			}
+			c = p.X
+		}
+		if _, isID := c.(*ast.Ident); !isID {
+			return
+		}
+		var pre []ast.Stmt
+		pre = append(pre, body.List[:len(body.List)-1]...)
+		if last.Init != nil {
+			pre = append(pre, last.Init)
+		}
+		guard := &ast.IfStmt{If: last.If, Cond: n.not(last.Cond), Body: &ast.BlockStmt{Lbrace: last.Body.Lbrace, List: []ast.Stmt{&ast.ReturnStmt{Return: last.Body.Lbrace}}, Rbrace: last.Body.Lbrace}}
+		body.List = append(append(pre, guard), last.Body.List...)
+	}
 }
 
 // funcBody: in a function literal or declaration without results whose last statement is a loop,
